@@ -94,7 +94,7 @@ var SiteNames = []string{
 	"skip.slice",
 	"struct.size", "struct.descriptor", "map.size", "map.append", "slice.size", "slice.encode", "json.size", "json.encode",
 	"map.iter1", "map.iterN", "map.iterEnd",
-	"auto.atomic", "auto.lock", "auto.call",
+	"auto.atomic", "auto.lock", "auto.call", "auto.spin",
 	"simreg.load", "simreg.storeOrSwap",
 	"op.begin", "op.end",
 }
@@ -106,7 +106,7 @@ const (
 
 var NumSites = len(SiteNames)
 
-var siteIter1, siteIterN, siteIterEnd, siteOpBegin int
+var siteIter1, siteIterN, siteIterEnd, siteOpBegin, siteAutoSpin int
 
 var siteIndex = func() map[string]int {
 	m := make(map[string]int, len(SiteNames))
@@ -117,6 +117,7 @@ var siteIndex = func() map[string]int {
 		panic("site table out of step")
 	}
 	siteIter1, siteIterN, siteIterEnd, siteOpBegin = m["map.iter1"], m["map.iterN"], m["map.iterEnd"], m["op.begin"]
+	siteAutoSpin = m["auto.spin"]
 	return m
 }()
 
@@ -362,6 +363,7 @@ func New(n int, o Options) *Sim {
 			s.sites[SiteID(n)] = true
 		}
 		s.sites[SiteMutexWait] = true // never optional: a task must not block for real
+		s.sites[siteAutoSpin] = true  // nor spin for real
 	}
 	s.forced = o.Forced
 	s.useF = o.UseForce
@@ -421,6 +423,7 @@ func (s *Sim) Run(fns []func()) {
 	}
 	Install()
 	active = s
+	loopIters = 0
 	var wg sync.WaitGroup
 	for i := range fns {
 		wg.Add(1)
@@ -561,11 +564,30 @@ var (
 )
 
 // BeginSolo arms the solo step limit; EndSolo disarms it.
-func BeginSolo(limit int) { soloSteps, soloLimit = 0, limit }
+func BeginSolo(limit int) { soloSteps, soloLimit, loopIters = 0, limit, 0 }
+
+// loopIters counts loop iterations of the code under test since the current
+// run (or solo call) began; maxLoopIters is far beyond anything a scenario does.
+var loopIters int
+
+const maxLoopIters = 50000000
 func EndSolo()            { soloLimit = 0 }
 
 //go:norace
 func yieldHook(site string) {
+	if len(site) == 9 && site == "auto.loop" {
+		// the top of a loop body (autoyield): never a switch point, only a count,
+		// so that a loop that never ends stops the run instead of hanging it
+		loopIters++
+		if loopIters > maxLoopIters {
+			loopIters = 0
+			if s := active; s != nil && !s.freeRun {
+				s.abort = AbortBudget
+			}
+			panic(AbortPanic{AbortBudget})
+		}
+		return
+	}
 	s := active
 	if s == nil {
 		if soloLimit > 0 {
@@ -607,7 +629,7 @@ func yieldHook(site string) {
 	case siteOpBegin:
 		s.iterDepth[t], s.iterSupp[t] = 0, 0
 	}
-	if s.iterSupp[t] != 0 && id != SiteMutexWait {
+	if s.iterSupp[t] != 0 && id != SiteMutexWait && id != siteAutoSpin {
 		return
 	}
 	if !s.sites[id] {
@@ -637,7 +659,12 @@ func (s *Sim) onYield(t, site int) {
 	}
 	s.record(t, site)
 	s.yields[t]++
-	if site == SiteMutexWait {
+	if site == SiteMutexWait || (site == siteAutoSpin && s.otherEligible(t)) {
+		// waiting for a lock, or going round a loop that waits on a synchronisation
+		// operation (a spin lock of the code's own) while somebody else could run:
+		// not runnable again until another task has made progress. A spinning task
+		// with nobody else to run just goes on (if it never leaves the loop, that is
+		// a livelock and the step budget says so).
 		s.St.MutexWaits++
 		s.blocked[t] = true
 		s.blockedAt[t] = s.progress
@@ -709,6 +736,17 @@ func (s *Sim) onDone(t int) {
 	}
 	s.cur = next
 	rawWrite(pipes[next][1])
+}
+
+//go:norace
+func (s *Sim) otherEligible(t int) bool {
+	for i := 0; i < s.N; i++ {
+		// a task the stall policy holds back counts: pick releases it when nobody else can run
+		if i != t && s.state[i] == stReady && !(s.blocked[i] && s.progress <= s.blockedAt[i]) {
+			return true
+		}
+	}
+	return false
 }
 
 //go:norace
